@@ -148,6 +148,19 @@ def model_classes(spec, ref):
     cl.append(f"cont_choices_{ncc}")
     if spec.mentions_period():
         cl.append("period_dependent_function")
+    ub = spec.functions["utility"]["body"]
+    if "0.05 * xp.log(" in ub:
+        cl.append("utility_nan_where_infeasible")
+    if "nextdep_constraint" in spec.functions:
+        cl.append("constraint_on_transition_output")
+    if "budget_constraint" in spec.functions and "xp.minimum(" in spec.functions["budget_constraint"]["body"]:
+        cl.append("lower_bound_constraint")
+    if any(n in spec.functions for n in ("tax_filter_cost", "budget_constraint_slack")):
+        cl.append("marker_inside_function_name")
+    if any("(_period - 2)" in f["body"] for f in spec.functions.values()):
+        cl.append("period_minus_two")
+    if "xtie" in spec.choices:
+        cl.append("near_tie_choice")
     return cl
 
 
